@@ -513,23 +513,38 @@ def rule_PO(run: Run) -> RuleResult:
                 f"{len(ps)} returning paths" if not none_ret else "a path falls off the end (returns None)", nec)
         if owner is not cls:
             continue
-        pm = astu.parent_map(fn)
+        # literal keys (a set/list display holding an attribute or a constant) are reported only on paths that
+        # established their presence in the caller's options
+        from .interp import Frame as _Frame
+        from .terms import Seq as _Seq
+        optp_ = astu.param_names(fn)[0]
+
+        def literal_keys(t, out):
+            if isinstance(t, _Seq):
+                for it in t.items:
+                    if isinstance(it, Child) or (isinstance(it, Const) and isinstance(it.v, str)):
+                        out.append(it)
+                    else:
+                        literal_keys(it, out)
+            elif isinstance(t, Sym):
+                for a_ in t.args:
+                    literal_keys(a_, out)
+            elif isinstance(t, Coll):
+                literal_keys(t.elem, out)
+            return out
+
+        seen_lit = {}
+        for p in ps:
+            at_ = _Frame.atoms(p.conds)
+            for lk in literal_keys(p.ret, []):
+                guarded = at_.get(f"call:confectioner.templating.dotted_key_exists({lk.key()},{optp_})") is True
+                k_ = lk.key()
+                seen_lit[k_] = seen_lit.get(k_, True) and guarded
+        for k_, guarded in sorted(seen_lit.items()):
+            shown_ = k_.replace("Child(", "self.").rstrip(")") if k_.startswith("Child(") else k_
+            res.add(f"{cls.qualname}.keys:literal key {shown_} reported only when present", guarded, owner.module.relpath, fn.lineno,
+                    f"{{{shown_}}} " + ("only on paths that established" if guarded else "also on a path that did not establish") + f" dotted_key_exists({shown_}, options)", nec)
         for n in astu.walk_no_nested(fn):
-            if isinstance(n, ast.Set):
-                for elt in n.elts:
-                    # the display must sit inside `if dotted_key_exists(<elt>, options)`
-                    cur = n
-                    guarded = False
-                    while id(cur) in pm:
-                        par = pm[id(cur)]
-                        if isinstance(par, ast.If) and any(x is cur for x in par.body):
-                            t = par.test
-                            if isinstance(t, ast.Call) and astu.short_name(t) == "dotted_key_exists" and len(t.args) == 2 \
-                                    and ast.unparse(t.args[0]) == ast.unparse(elt) and ast.unparse(t.args[1]) == astu.param_names(fn)[0]:
-                                guarded = True
-                        cur = par
-                    res.add(f"{cls.qualname}.keys:literal key {ast.unparse(elt)} reported only when present", guarded, owner.module.relpath, n.lineno,
-                            f"{{{ast.unparse(elt)}}} " + ("inside" if guarded else "outside") + f" if dotted_key_exists({ast.unparse(elt)}, options)", nec)
             if isinstance(n, ast.Call) and astu.short_name(n) == "set" and n.args:
                 a = ast.unparse(n.args[0])
                 ok = a == f"{astu.param_names(fn)[0]}.keys()"
@@ -611,6 +626,45 @@ def rule_NK(run: Run) -> RuleResult:
     nec = ("options grouped in a namespace must behave exactly like the equivalent fully-qualified Options: every "
            "member of a (re-parented) namespace gets the same prefix, once (C04)")
 
+    # the private members of Namespace, by role (labels keep the names they have in the pinned tree)
+    roles: Dict[str, str] = {}
+    cms = [n_ for n_, f_ in ns.methods.items() if any(ast.unparse(d_) == "classmethod" for d_ in f_.decorator_list)]
+    if len(cms) == 1:
+        roles["_from_type"] = cms[0]                 # the one alternate constructor (from a class body)
+    init_ = ns.methods.get("__init__")
+    if init_ is not None:
+        ip_ = astu.param_names(init_)
+        for st_ in ast.walk(init_):
+            if isinstance(st_, ast.Assign) and isinstance(st_.targets[0], ast.Attribute) and astu.is_self_attr(st_.targets[0]) \
+                    and isinstance(st_.value, ast.Name) and ip_ and st_.value.id == ip_[0]:
+                roles["_key"] = st_.targets[0].attr   # where the constructor keeps its first argument, the key
+    for n_, f_ in ns.methods.items():
+        if n_ in cms or n_.startswith("__"):
+            continue
+        calls_ = [astu.short_name(c_) for c_ in astu.calls_in(f_)]
+        if "Namespace" in calls_ and len(astu.param_names(f_)) == 1:
+            roles.setdefault("_inherit", n_)          # re-keys this namespace under a parent
+        def _calls_option(fnode, depth=0):
+            for c_ in astu.calls_in(fnode):
+                if isinstance(c_.func, ast.Attribute) and c_.func.attr == "option":
+                    return True
+                if depth < 2 and isinstance(c_.func, ast.Name):
+                    r_ = repo.resolve_name(ns.module, c_.func.id)
+                    if r_ and r_[0] == "func" and r_[1].module is ns.module and _calls_option(r_[1].node, depth + 1):
+                        return True
+            return False
+        if "_build_doc" not in roles and _calls_option(f_):
+            roles["_build_doc"] = n_                  # documents the members (auto members through .option(key))
+    ev_ = ns.methods.get("evaluate")
+    if ev_ is not None:
+        for c_ in astu.calls_in(ev_):
+            if isinstance(c_.func, ast.Attribute) and astu.is_self_attr(c_.func) and c_.func.attr in ns.methods and len(c_.args) == 2:
+                roles["_populate"] = c_.func.attr
+    for need_ in ("_from_type", "_key", "_inherit", "_build_doc", "_populate"):
+        if need_ not in roles:
+            raise AnalysisError(f"Namespace: no member found for the role of {need_}")
+    KEYATTR = roles["_key"]
+
     def key_sites(fn, prefix: str, selfkey: str = None):
         out = []
         for c in astu.calls_in(fn):
@@ -619,9 +673,9 @@ def rule_NK(run: Run) -> RuleResult:
                 out.append((c, c.args[0], "Option key"))
             elif nm == "Namespace" and c.args:
                 out.append((c, c.args[0], "Namespace key"))
-            elif nm == "_inherit" and c.args:
+            elif nm == roles["_inherit"] and c.args:
                 out.append((c, c.args[0], "prefix handed to the nested namespace"))
-            elif nm == "_from_type":
+            elif nm == roles["_from_type"]:
                 for k in c.keywords:
                     if k.arg == "parent":
                         out.append((c, k.value, "prefix handed to the nested class"))
@@ -638,7 +692,25 @@ def rule_NK(run: Run) -> RuleResult:
                 and sum(1 for v in e.values if isinstance(v, ast.FormattedValue)) == 2
         return False
 
-    plan = {"_from_type": "key", "_inherit": "parent", "__getitem__": "self._key", "_build_doc": "self._key"}
+    # the prefix variable of _from_type is the local computed from its `parent` parameter (whatever it is called)
+    ft0 = ns.methods.get(roles["_from_type"])
+    ft_pref = "key"
+    if ft0 is not None:
+        pn0 = [a.arg for a in ft0.args.posonlyargs + ft0.args.args + ft0.args.kwonlyargs]
+        par0 = "parent" if "parent" in pn0 else None
+        for st_ in ft0.body:
+            if par0 and isinstance(st_, (ast.Assign, ast.AnnAssign)) and st_.value is not None and astu.contains_name(st_.value, par0):
+                tg_ = st_.targets[0] if isinstance(st_, ast.Assign) else st_.target
+                if isinstance(tg_, ast.Name):
+                    ft_pref = tg_.id
+                    break
+            if par0 and isinstance(st_, ast.If) and astu.contains_name(st_.test, par0):
+                tg_ = [t_.targets[0].id for t_ in ast.walk(st_) if isinstance(t_, ast.Assign) and isinstance(t_.targets[0], ast.Name)]
+                if tg_:
+                    ft_pref = tg_[0]
+                    break
+    inh_p = astu.param_names(ns.methods[roles["_inherit"]])[0]
+    plan = {"_from_type": ft_pref, "_inherit": inh_p, "__getitem__": f"self.{KEYATTR}", "_build_doc": f"self.{KEYATTR}"}
     n = 0
 
     def helper_of(c: ast.Call):
@@ -677,21 +749,21 @@ def rule_NK(run: Run) -> RuleResult:
                     check(hfn, params[i], f"{label}>{hfn.name}", depth + 1)
 
     for mname, prefix in plan.items():
-        fn = ns.methods.get(mname)
+        fn = ns.methods.get(roles.get(mname, mname))
         if fn is None:
             raise AnalysisError(f"Namespace.{mname} not found")
         check(fn, prefix, mname)
     # _from_type: the key of the namespace is parent.name (name at the root).  Read off a synthetic
     # function made of the statements up to the last assignment of the prefix variable.
-    ft = ns.methods["_from_type"]
+    ft = ns.methods[roles["_from_type"]]
     ok = False
     shown = ""
-    last = max((i for i, st_ in enumerate(ft.body) if any(isinstance(x, ast.Name) and x.id == "key" and isinstance(x.ctx, ast.Store) for x in ast.walk(st_))), default=None)
+    last = max((i for i, st_ in enumerate(ft.body) if any(isinstance(x, ast.Name) and x.id == ft_pref and isinstance(x.ctx, ast.Store) for x in ast.walk(st_))), default=None)
     if last is not None:
         import copy as _copy
         probe = _copy.deepcopy(ft)
         probe.decorator_list = []
-        probe.body = probe.body[:last + 1] + [ast.Return(value=ast.Name(id="key", ctx=ast.Load()))]
+        probe.body = probe.body[:last + 1] + [ast.Return(value=ast.Name(id=ft_pref, ctx=ast.Load()))]
         ast.fix_missing_locations(probe)
         from .interp import analyse_function
         outs = {}
@@ -716,13 +788,13 @@ def rule_NK(run: Run) -> RuleResult:
     saw_member = False
     for p in eps_:
         k = p.ret.key()
-        if not k.startswith("call:confectioner.templating.get_dotted_key(Child(_key),"):
+        if not k.startswith(f"call:confectioner.templating.get_dotted_key(Child({KEYATTR}),"):
             ok = False
         if "set(" in k or "_populate(" in k or any(e.kind == "op" and e.op == "evaluate" for e in p.events):
             saw_member = True
     res.add("labrea.option.Namespace.evaluate:the section under its own key of the populated dictionary", ok and saw_member, f, ev.lineno if ev else 0,
             f"{[p.ret.key()[:80] for p in eps_[:3]]}", nec)
-    pp = ns.methods.get("_populate")
+    pp = ns.methods.get(roles["_populate"])
     ok = pp is not None
     if ok:
         from .interp import analyse_function
@@ -733,10 +805,12 @@ def rule_NK(run: Run) -> RuleResult:
                 ok = False
                 continue
             k = p.ret.key()
-            M = "getitem(self,elem(attr:_members(self)))"
+            import re as _re
+            mo_ = _re.search(r"getitem\(self,elem\(attr:(\w+)\(self\)\)\)", k)
+            M = f"getitem(self,elem(attr:{mo_.group(1) if mo_ else '_members'}(self)))"
             if k == rp_:
                 kinds.add("none")
-            elif k == f"call:_populate({M},{rp_},{op_})":
+            elif k == f"call:{roles['_populate']}({M},{rp_},{op_})":
                 kinds.add("namespace")
             elif k == f"call:set({M},{rp_},callres({M},{op_}))" or k == f"call:set({M},{rp_},call:evaluate({M},{op_}))":
                 kinds.add("option")
